@@ -675,6 +675,65 @@ def _fresh_graph():
     return SymbolGraph()
 
 
+def construct(info: SchemaInfo, c: int, i: int, rt, **managed):
+    """instance `i` of class `c` built by ONE constructor call that also assigns the managed fields in `managed`
+    (`Person("p", works_for=acme, member_of=[club])`): the dataclass `__init__` assigns every field in declaration
+    order, so inference triggered by an earlier field reaches later fields of the same instance before `__init__`
+    has assigned them"""
+    cls = info.classes[c]
+    if info.tag == "U":
+        if c in info.role_attr:
+            return cls(rt, **managed)
+        return cls(name=("p" if c == 0 else "c") + str(i), **managed)
+    if c in info.role_attr:
+        return cls(rt, i, **managed)
+    return cls(i, **managed)
+
+
+def ctor_fields(info: SchemaInfo) -> Dict[int, List[int]]:
+    """class id -> its managed fields in the order in which the dataclass `__init__` assigns them"""
+    from dataclasses import fields as dc_fields
+
+    out: Dict[int, List[int]] = {}
+    for c, cls in enumerate(info.classes):
+        by_name = {info.attr(f, c): f for f in range(len(info.fields)) if info.applies(f, c)}
+        out[c] = [by_name[f.name] for f in dc_fields(cls) if f.name in by_name]
+    return out
+
+
+def ctor_unsafe(info: SchemaInfo) -> Dict[int, List[int]]:
+    """class id -> managed fields that must not receive a value in a constructor call of a VALUE-EQUALITY class (an
+    eq-dataclass such as the repository's Company / Person): while `__init__` is still assigning such a field, its
+    inverse (or the inverse of a super-property) is written into a list / single-valued field of another object, whose
+    membership test compares the half-built instance with the elements already there through the generated `__eq__`
+    — which reads the fields `__init__` has not assigned yet and raises AttributeError (observed on the unchanged
+    tree, see notes/build_reports/c15.md; not generated until it is modelled as a finding)."""
+    from dataclasses import fields as dc_fields
+
+    out: Dict[int, List[int]] = {}
+    order = ctor_fields(info)
+    for c, cls in enumerate(info.classes):
+        params = getattr(cls, "__dataclass_params__", None)
+        if params is None or not params.eq:
+            out[c] = []
+            continue
+        last = dc_fields(cls)[-1].name
+        bad = []
+        for f in order[c]:
+            if info.attr(f, c) == last:
+                continue
+            p = info.props.index(type(info.desc[f]))
+            invs = {info.inverse[q] for q in [p] + info.supers[p] if q in info.inverse}
+            reach = set(invs)
+            for q in invs:
+                reach.update(info.supers[q])
+            if any(info.kinds[g] != "set" and info.props.index(type(info.desc[g])) in reach
+                   for g in range(len(info.fields))):
+                bad.append(f)
+        out[c] = bad
+    return out
+
+
 def build_world(info: SchemaInfo, objs, late=()) -> List[Any]:
     """`late`: indices of instances that are created only when the history says so"""
     out: List[Any] = []
@@ -740,11 +799,23 @@ def run_c15_line(line: str) -> str:
         sg = _fresh_graph()
         objs_spec = field_of(items, "objs")
         ops = field_of(items, "ops")
-        late = {int(op[1]) for op in ops if op[0] in ("new", "kill")}
+        late = {int(op[1]) for op in ops if op[0] in ("new", "kill", "ctor")}
         objs = build_world(info, objs_spec, late)
         classes_of = [int(c) for c, _ in objs_spec]
         dead_ids, ballast = set(), []
         for op in ops:
+            if op[0] == "ctor":      # `(ctor o (f x…)…)`: instance o is created HERE, managed fields given to the constructor
+                i = int(op[1])
+                c, rt = objs_spec[i]
+                kw = {}
+                for fx in op[2:]:
+                    f, xs = int(fx[0]), [objs[int(x)] for x in fx[1:]]
+                    if not xs:
+                        continue     # left to its default
+                    k = info.kinds[f]
+                    kw[info.attr(f, int(c))] = xs[0] if k == "single" else (set(xs) if k == "set" else list(xs))
+                objs[i] = construct(info, int(c), i, objs[int(rt)] if rt != "-" else None, **kw)
+                continue
             if op[0] == "kill":      # a short-lived instance without relations: created here and discarded at once
                 i = int(op[1])           # (no collection in between: CPython hands its address to the next instance)
                 c, rt = objs_spec[i]
@@ -801,7 +872,8 @@ def _apply_cop(a, name: str, is_set: bool, op, objs) -> None:
 
     k = op[0]
     mk = (lambda xs: set(xs)) if is_set else (lambda xs: list(xs))
-    vals = [objs[int(x)] for x in op[1:]] if k not in ("insert", "setitem", "assignView", "setslice") else None
+    vals = [objs[int(x)] for x in op[1:]] if k not in ("insert", "setitem", "assignView", "setslice", "pop", "delitem",
+                                                      "delslice") else None
     if k == "append":
         getattr(a, name).append(vals[0])
     elif k == "add":
@@ -824,6 +896,23 @@ def _apply_cop(a, name: str, is_set: bool, op, objs) -> None:
         else:
             value = (x for x in xs) if len(xs) % 2 else iter(xs)
         getattr(a, name)[lo:hi] = value
+    elif k == "remove":
+        getattr(a, name).remove(vals[0])
+    elif k == "discard":
+        getattr(a, name).discard(vals[0])
+    elif k == "pop":
+        if len(op) > 1:
+            getattr(a, name).pop(int(op[1]))
+        else:
+            getattr(a, name).pop()
+    elif k == "delitem":
+        del getattr(a, name)[int(op[1])]
+    elif k == "delslice":
+        lo = None if op[1] == "-" else int(op[1])
+        hi = None if op[2] == "-" else int(op[2])
+        del getattr(a, name)[lo:hi]
+    elif k == "clear":
+        getattr(a, name).clear()
     elif k == "assign":
         setattr(a, name, mk(vals))
     elif k == "assignSelf":
@@ -878,6 +967,8 @@ def run_c16_line(line: str) -> str:
         info = schema(field_of(items, "schema")[0])
         sg = _fresh_graph()
         objs_spec = field_of(items, "objs")
+        if s[0] == "hc":
+            return _run_hc(info, sg, items, objs_spec)
         f = int(field_of(items, "field")[0])
         name = info.fields[f][1]
         is_set = info.kinds[f] == "set"
@@ -923,6 +1014,55 @@ def run_c16_line(line: str) -> str:
         return "exc:RecursionError"
     except Exception as e:  # noqa: BLE001
         return "exc:" + type(e).__name__
+
+
+def construct_with(info: SchemaInfo, c: int, i: int, kwargs: Dict[str, Any]):
+    """a constructor call that assigns several managed fields at once (classes without a role taker)"""
+    if info.tag == "U":
+        return info.classes[c](name=f"{'p' if c == 0 else 'c'}{i}", **kwargs)
+    return info.classes[c](i, **kwargs)
+
+
+def _run_hc(info: SchemaInfo, sg, items, objs_spec) -> str:
+    """C16 family `hc`: a history in the C15 grammar (set / add / assign through the real descriptors) in which some
+    instances are created mid-history by a constructor call with keyword arguments for several managed fields
+    `(ctor o (set f t) (assign f x…) (default f)…)`. No field is READ between the writes (a read binds the owner
+    of a monitored container); observation at the end: relation triples and the contents of every managed field."""
+    ops = field_of(items, "ops")
+    late = {int(op[1]) for op in ops if op[0] == "ctor"}
+    objs = build_world(info, objs_spec, late)
+    classes_of = [int(c) for c, _ in objs_spec]
+    for op in ops:
+        if op[0] == "ctor":
+            o = int(op[1])
+            c = classes_of[o]
+            kwargs: Dict[str, Any] = {}
+            for it in op[2:]:
+                f = int(it[1])
+                if it[0] == "set":
+                    kwargs[info.attr(f, c)] = objs[int(it[2])]
+                elif it[0] == "assign":
+                    vals = [objs[int(x)] for x in it[2:]]
+                    kwargs[info.attr(f, c)] = set(vals) if info.kinds[f] == "set" else list(vals)
+                elif it[0] != "default":
+                    return "bad-op"
+            objs[o] = construct_with(info, c, o, kwargs)
+            continue
+        kind, f, src = op[0], int(op[1]), objs[int(op[2])]
+        name = info.attr(f, classes_of[int(op[2])])
+        if kind == "set":
+            setattr(src, name, objs[int(op[3])])
+        elif kind == "add":
+            c = getattr(src, name)
+            (c.add if info.kinds[f] == "set" else c.append)(objs[int(op[3])])
+        elif kind == "assign":
+            vals = [objs[int(x)] for x in op[3:]]
+            setattr(src, name, tuple(vals) if info.kinds[f] == "set" else list(vals))
+        else:
+            return "bad-op"
+    out = observe_relations(info, sg, objs) + "|" + observe_fields(info, objs, classes_of)
+    del objs
+    return out
 
 
 def _run_two(info, sg, items, objs_spec, f, name, is_set) -> str:
@@ -1013,7 +1153,15 @@ def _describe(tag: str):
 
     use_repo_sources()
     info = schema(tag)
+    from dataclasses import fields as dc_fields
+    decl_order = {}
+    for c, cls in enumerate(info.classes):
+        names = [x.name for x in dc_fields(cls)]
+        fs = [f for f in range(len(info.fields)) if info.applies(f, c)]
+        decl_order[c] = sorted(fs, key=lambda f: names.index(info.attr(f, c)))
     return {"sexp": info.sexp(), "kinds": info.kinds, "fields": info.fields, "targets": info.targets,
-            "role_cls": list(info.role_attr.keys()), "nclasses": len(info.classes),
+            # the managed fields of each class in the order the dataclass `__init__` assigns them
+            "decl_order": decl_order,
+            "role_cls": list(info.role_attr.keys()), "nclasses": len(info.classes), "ctor_fields": ctor_fields(info), "ctor_unsafe": ctor_unsafe(info),
             "applies": {f: [c for c in range(len(info.classes)) if info.applies(f, c)]
                         for f in range(len(info.fields))}}
